@@ -70,6 +70,7 @@ class Assembled:
         self.chunks = []  # (text, meta) ; meta: dict(kind=..., fn=..., file=..., origin=..., src=Source)
         self.inventory = []  # per Fn/Stub: dict
         self.rewrites = []  # (rule, where)
+        self.dropped_hints = {}  # qname -> number of proof hints whose anchor is lost (not placed)
         self.trusted = []  # names of assumed items
         self.canaries = {}  # canary fn name -> fn qname
         self.keys = []
@@ -263,7 +264,10 @@ def process_fn(asm, f, unit):
             seg = srctext[body0:fn_end]
             ms = list(re.finditer(pat, seg))
             if not ms:
-                raise LostAnchor("body_sub pattern /%s/ not found in %s::%s" % (pat, f.file, f.name))
+                # the construct the substitution stands for is no longer in the body: nothing to rewrite.  If the body now holds another
+                # construct outside the dialect, Verus rejects the file (undecided); otherwise the contract is checked against the new text.
+                asm.rewrites.append(("body substitution /%s/ not applicable (pattern absent from the current body)" % pat, where))
+                continue
             for m in ms:
                 edA.replace(body0 + m.start(), body0 + m.end(), m.expand(rep), "Rsub")
                 asm.rewrites.append(("body substitution /%s/ -> %s" % (pat, rep), "%s:%d" % (where, line_of(srctext, body0 + m.start()))))
@@ -336,10 +340,10 @@ def process_fn(asm, f, unit):
         pre += " proof { lemma_keys(); }"
     if f.fuel:
         pre += " proof { reveal_with_fuel(ser, %d); reveal_with_fuel(ser_fields_from, %d); reveal_with_fuel(ser_seq_from, %d); }" % (f.fuel, f.fuel, f.fuel)
-    if f.pre:
-        pre += " " + f.pre.strip()
     if pre:
-        ed.insert(ct[fp.i_brace].end, pre + "\n", "hint")
+        ed.insert(ct[fp.i_brace].end, pre + "\n", "hint:gen")
+    if f.pre:
+        ed.insert(ct[fp.i_brace].end, " " + f.pre.strip() + "\n", "hint:pre")
     # --- R10: bind the tail expression so that a proof block can follow it
     if f.post:
         depth = 0
@@ -353,8 +357,8 @@ def process_fn(asm, f, unit):
                     tail = j + 1
         if tail >= fp.i_end:
             raise LostAnchor("%s::%s: no tail expression to bind" % (f.file, f.name))
-        ed.insert(ct[tail].start, "let %s = " % f.ret, "hint")
-        ed.insert(ct[fp.i_end].start, "; " + f.post.strip() + " " + f.ret + "\n", "hint")
+        ed.insert(ct[tail].start, "let %s = " % f.ret, "hint:post")
+        ed.insert(ct[fp.i_end].start, "; " + f.post.strip() + " " + f.ret + "\n", "hint:post")
         asm.rewrites.append(("R10 tail expression bound to `%s` (proof block follows)" % f.ret, "%s:%d %s" % (where, fpA.start_line, f.name)))
     # --- loops
     loops = fp.loops()
@@ -407,22 +411,31 @@ def process_fn(asm, f, unit):
     for k, h in enumerate(f.hints):
         pat, nth, text = h[0], h[1], h[2]
         where_ = h[3] if len(h) > 3 else "after"
-        s0, e0, positional = _resolve_anchor(textA, body0, pat, nth, "hint", f, unit.name, "hints", k)
+        try:
+            s0, e0, positional = _resolve_anchor(textA, body0, pat, nth, "hint", f, unit.name, "hints", k)
+        except LostAnchor:
+            if where_ in ("at", "atend") or "let ghost" in text or "let tracked" in text:
+                raise  # inline hints and ghost declarations (later text depends on them) cannot be left out
+            # a proof aid that cannot be placed is left out: the function is then either proved without it, or reported UNDECIDED
+            # (never as a violation: vx/check.py downgrades failures of functions listed here)
+            asm.dropped_hints[f.qname()] = asm.dropped_hints.get(f.qname(), 0) + 1
+            asm.rewrites.append(("proof hint #%d not placed: anchor /%s/ no longer in the body" % (k, pat), "%s %s" % (f.file, f.name)))
+            continue
         if positional and where_ in ("at", "atend"):
             raise LostAnchor("%s::%s: hint anchor /%s/ #%d not found (inline hint: no positional fallback)" % (f.file, f.name, pat, nth))
         if positional:
             asm.rewrites.append(("anchor of hint #%d re-placed by recorded line position (anchored line changed)" % k, "%s %s" % (f.file, f.name)))
         if where_ == "before":
             at = textA.rfind("\n", 0, s0) + 1
-            ed.insert(at, text.strip() + "\n", "hint")
+            ed.insert(at, text.strip() + "\n", "hint:%d" % k)
         elif where_ == "at":
-            ed.insert(s0, text.strip() + " ", "hint")
+            ed.insert(s0, text.strip() + " ", "hint:%d" % k)
         elif where_ == "atend":
-            ed.insert(e0, " " + text.strip() + " ", "hint")
+            ed.insert(e0, " " + text.strip() + " ", "hint:%d" % k)
         else:
             at = textA.find("\n", e0)
             at = len(textA) if at < 0 else at + 1
-            ed.insert(at, text.strip() + "\n", "hint")
+            ed.insert(at, text.strip() + "\n", "hint:%d" % k)
     for k, c in enumerate(f.claims):
         pat, nth, text = c[0], c[1], c[2]
         where_ = c[3] if len(c) > 3 else "after"
@@ -627,7 +640,7 @@ def assemble(unit, drop_hints=()):
         out = mod_chunks[x.mod]
         if x.kind in ("fn", "stub") or (x.kind == "raw" and x.impl):
             if x.kind != "raw" and x.qname() in drop_hints:
-                x = _without_hints(x)
+                x = _without_hints(x, drop_hints[x.qname()] if isinstance(drop_hints, dict) else None)
             key = (x.file, x.impl) if x.impl else None
             if open_impl[x.mod] != key:
                 if open_impl[x.mod] is not None:
@@ -693,7 +706,7 @@ def assemble(unit, drop_hints=()):
             for t, meta in mod_chunks[m]:
                 asm.add(t, **meta)
         else:
-            asm.add("pub mod %s {\nuse super::*;\nbroadcast use axiom_duplex;\n%s" % (m, "".join("%s\n" % u for u in unit.uses.get(m, []))), kind="gen")
+            asm.add("pub mod %s {\nuse super::*;\nbroadcast use {axiom_duplex, bit_commute};\n%s" % (m, "".join("%s\n" % u for u in unit.uses.get(m, []))), kind="gen")
             for t, meta in mod_chunks[m]:
                 asm.add(t, **meta)
             asm.add("} // mod %s" % m, kind="gen")
@@ -701,11 +714,58 @@ def assemble(unit, drop_hints=()):
     return asm.finish()
 
 
-def _without_hints(x):
+def _strip_asserts(text):
+    """remove `proof { .. }` blocks and top-level assert statements from a hint text; ghost declarations and labels stay"""
+    out = []
+    i = 0
+    n = len(text)
+    while i < n:
+        m = re.compile(r"\bproof\s*\{").match(text, i)
+        m2 = re.compile(r"\bassert\b").match(text, i)
+        if m:
+            depth = 1
+            j = m.end()
+            while j < n and depth:
+                if text[j] == "{": depth += 1
+                elif text[j] == "}": depth -= 1
+                j += 1
+            i = j
+            continue
+        if m2:
+            depth = 0
+            j = i
+            while j < n:
+                c = text[j]
+                if c in "([{": depth += 1
+                elif c in ")]}": depth -= 1
+                elif c == ";" and depth == 0:
+                    j += 1
+                    break
+                j += 1
+            i = j
+            continue
+        out.append(text[i])
+        i += 1
+    return "".join(out).strip()
+
+
+def _without_hints(x, tags=None):
+    """tags: set of linemap tags ("hint:<k>", "hint:pre", "hint:post") whose assertions failed; None = every asserting hint"""
     import copy
     y = copy.copy(x)
-    # keep ghost declarations (invariants may mention them); drop everything that asserts
-    y.hints = [h for h in x.hints if "assert" not in h[2] and "lemma" not in h[2]]
-    if x.pre and ("assert" in x.pre or "lemma" in x.pre):
-        y.pre = " ".join(p for p in x.pre.split(";") if "assert" not in p and "lemma" not in p and p.strip()) + ";" if "let ghost" in x.pre else None
+    hs = []
+    for k, h in enumerate(x.hints):
+        if tags is not None and ("hint:%d" % k) not in tags:
+            hs.append(h)
+            continue
+        t = _strip_asserts(h[2])
+        if t:
+            hs.append((h[0], h[1], t) + tuple(h[3:]))
+        elif len(h) > 3 and h[3] in ("at", "atend"):
+            hs.append(h)
+    y.hints = hs
+    if x.pre and (tags is None or "hint:pre" in tags):
+        y.pre = _strip_asserts(x.pre) or None
+    if x.post and (tags is None or "hint:post" in tags):
+        y.post = None
     return y
